@@ -720,7 +720,14 @@ fn slice_obs(v: &DnaStringSlice) -> Value {
 
 pub fn slice_history(sink: &Sink, r: &mut Rng) {
     let lens = [0usize, 1, 4, 5, 9, 31, 32, 33, 64, 65, 100, 130, 255, 256, 300];
-    let base = r.dna(*r.clone().pick(&lens), &[0, 1, 2, 3]);
+    // one base string in three is periodic (period 1..3): equal windows at different offsets are then the rule
+    let period = if r.chance(1, 3) { r.range(1, 3) } else { 0 };
+    let mut base = r.dna(*r.clone().pick(&lens), &[0, 1, 2, 3]);
+    if period > 0 {
+        for i in period..base.len() {
+            base[i] = base[i - period];
+        }
+    }
     let ds = DnaString::from_bytes(&base);
     sink.emit(json!({"op":"begin","dom":"slice","base":base,"case":0,"panic":""}));
     // first view from the string, then nested views; each step is one event
@@ -781,6 +788,32 @@ pub fn slice_history(sink: &Sink, r: &mut Rng) {
                             o["eq_prev"] = json!(p == &v);
                         } else {
                             o["eq_prev"] = json!(false);
+                        }
+                        // a sibling view: same backing string, same length and orientation, shifted by one period (or one base):
+                        // equality must follow the bases, not the offsets
+                        let d = if period > 0 { period } else { 1 };
+                        let sib_start = if v.start + d + v.length <= ds.len() { Some(v.start + d) } else if v.start >= d { Some(v.start - d) } else { None };
+                        match sib_start {
+                            Some(st) => {
+                                let w = DnaStringSlice { dna_string: v.dna_string, start: st, length: v.length, is_rc: v.is_rc };
+                                match guard(|| ((0..w.len()).map(|i| w.get(i)).collect::<Vec<u8>>(), v == w, w == v)) {
+                                    Ok((wb, e1, e2)) => {
+                                        o["sib"] = json!(true);
+                                        o["sib_bytes"] = json!(wb);
+                                        o["sib_eq"] = json!([e1, e2]);
+                                    }
+                                    Err(_) => {
+                                        o["sib"] = json!(true);
+                                        o["sib_bytes"] = json!([9]);
+                                        o["sib_eq"] = json!([false, false]);
+                                    }
+                                }
+                            }
+                            None => {
+                                o["sib"] = json!(false);
+                                o["sib_bytes"] = json!([]);
+                                o["sib_eq"] = json!([false, false]);
+                            }
                         }
                         e["obs"] = o;
                         e["panic"] = json!("");
